@@ -9,6 +9,7 @@ from props import common as K
 
 META = {
     "level": "other",
+    "technique": "static analysis of type-checked MIR (rustc_private driver): MIR must-pass-through graph cuts, guard polarity and interprocedural provenance of keys, messages and times; abstract interpretation of the SET-OF header emitter",
     "explanation": "Must-pass-through, guard-polarity and interprocedural provenance rules over SignedMessage::validate_at, "
                    "IdCert::validate_ee_at and the embedded CRL's validation: no success path avoids the sid and digest "
                    "guards, signature verification of (signed attributes | EE certificate | CRL) under (EE key | peer key | "
